@@ -1077,6 +1077,16 @@ def mon_l5run(spec, run):
 MONITORS["L5run"] = mon_l5run
 
 
+def mon_ccrun(spec, run):
+    """not a property monitor: executes the L5c model of connection_check() on the run (harness/conncheck.py); the verdict travels in the result"""
+    from . import conncheck
+    run.results["cc"] = conncheck.check(spec, run, getattr(run, "preempt_budget", 0))
+    return []
+
+
+MONITORS["CCrun"] = mon_ccrun
+
+
 def mon_c16_two(spec, run):
     """close() of a second connection from inside a callback of the first one: it returns without raising, and once it has returned nothing
     more is written to that connection's port, the port is closed and its threads (R2, S2) terminate"""
